@@ -301,6 +301,22 @@ def richardson_retry(repo, run):
     run.analysed_fn(ITY, fn)
     upd = [st for st in walk_no_nested(fn) if isinstance(st, ast.Assign) and isinstance(st.value, ast.Call) and dotted(st.value.func) == "self.update_timestep"
            and isinstance(st.targets[0], ast.Tuple) and len(st.targets[0].elts) == 2]
+    if len(upd) > 1:
+        # the controller is consulted again for a retried step: its verdict (the second slot) has to be acted upon like the first one
+        from ..imodel import path_key
+        upd.sort(key=lambda st: path_key(st, fn))
+        for st in upd[1:]:
+            flag = st.targets[0].elts[1]
+            tested = isinstance(flag, ast.Name) and flag.id != "_" and any(
+                isinstance(t_, (ast.If, ast.While)) and any(isinstance(x, ast.Name) and x.id == flag.id for x in ast.walk(t_.test)) and path_key(t_, fn) > path_key(st, fn)
+                for t_ in walk_no_nested(fn))
+            run.judged(rid, "verdict of the repeated controller call `%s` is acted upon" % src(st)[:70], ok=tested)
+            if not tested:
+                run.report("C05.5", ITY, st, "the retried step is recorded whatever the controller says about it: the rejection flag of this second consultation is discarded, so a step "
+                                             "that has to be rejected twice in a row (initial dt far beyond the problem's time scale) is accepted after ONE reduction with an error "
+                                             "orders of magnitude above atol + rtol*|y|", text="retry verdict discarded")
+        if any(f.rule == "C05.5" for f in run.findings):
+            return
     if len(upd) != 1:
         raise AnalysisError("Richardson __call__: controller call not found")
     prop_name, redo_name = [e.id for e in upd[0].targets[0].elts]
